@@ -162,6 +162,31 @@ pub fn run(schedules_file: &str, corpus_dir: &str, max_files: usize, baseline_fi
         }
         trace.push(&rec);
     }
+    // every thread deep inside a long chain at the same time: the first multi-thread schedules once more with all calls
+    // on the deepest file of the set (whatever a walk keeps about its own depth is its own)
+    if let Some((dname, dtext)) = files.iter().find(|(n, _)| n.contains("deep_chain")) {
+        let heavy: Vec<Det> = dets.iter().cloned().filter(|d| base[dname][d.name()].as_array().map(|a| a.len() >= 1).unwrap_or(false)).collect();
+        let mut done = 0;
+        for rec in read_ndjson(schedules_file).iter() {
+            let nthreads = rec["threads"].as_u64().unwrap_or(1) as usize;
+            if nthreads < 2 || heavy.is_empty() {
+                continue;
+            }
+            let ncalls = rec["calls"].as_u64().unwrap_or(1) as usize;
+            let schedule: Vec<(bool, usize)> = rec["schedule"].as_array().unwrap().iter().map(|e| (e[0] == "B", e[1].as_u64().unwrap() as usize)).collect();
+            let queues: Vec<Vec<(String, String, Det)>> = (0..nthreads)
+                .map(|t| (0..ncalls).map(|k| (dname.clone(), dtext.clone(), heavy[(done + t + k) % heavy.len()])).collect())
+                .collect();
+            let (history, results) = run_schedule(&schedule, &queues);
+            out.evaluations += 1;
+            out.nontrivial += 1;
+            trace.push(&json!({"k": "schedule-deep", "threads": nthreads, "history": history, "calls": results}));
+            done += 1;
+            if done >= 40 {
+                break;
+            }
+        }
+    }
     // the file number (position of the file in its directory) is not part of the verdict: every call once more as
     // the 2nd and as the 10th file of a directory
     for (name, text) in files.iter() {
